@@ -185,6 +185,82 @@ Theorem c03_promotion_quantiles :
 Proof. intros max_t levels j H. split; [apply mk_quantiles_length|apply mk_quantiles_nth; exact H]. Qed.
 Print Assumptions c03_promotion_quantiles.
 
+(* (10) the maximum resource used by the scheduler (_infer_max_resource_level as called by
+   FIFOScheduler.__init__): the max_t argument takes precedence; otherwise the constant
+   config_space[max_resource_attr]; otherwise the first constant among epochs, max_t, max_epochs -
+   whatever other entries (distractor constants, hyperparameters) the configuration space holds *)
+Theorem c03_max_resource_rule :
+  forall (cs : cspace) (attr : option String.string),
+  (forall v, infer_max_resource_level (Some v) attr cs = Some v) /\
+  (forall a v, cs_getval cs a = Some v -> infer_max_resource_level None (Some a) cs = Some v) /\
+  ((match attr with Some n => cs_getval cs n = None | None => True end) ->
+   infer_max_resource_level None attr cs = first_some cs default_max_t_names).
+Proof.
+  intros cs attr. split; [intro v; apply infer_max_arg|]. split; [intros a v; apply infer_max_attr|apply infer_max_default].
+Qed.
+Print Assumptions c03_max_resource_rule.
+
+Module MaxTExample.
+Import Coq.Strings.String.
+Example c03_max_resource_example :
+  let cs := [("num_steps", Some 9); ("max_epochs", Some 81); ("lr", None)]%string%Z in
+  infer_max_resource_level None (Some "num_steps"%string) cs = Some 9%Z /\
+  infer_max_resource_level None None cs = Some 81%Z /\
+  infer_max_resource_level (Some 27%Z) (Some "num_steps"%string) cs = Some 27%Z /\
+  infer_max_resource_level None (Some "lr"%string) cs = Some 81%Z.
+Proof. repeat split. Qed.
+End MaxTExample.
+
+(* (11) without an explicit rung list the first rung level is the grace period *)
+Theorem c03_first_level_is_grace_period :
+  forall grace_period reduction_factor rung_increment max_t l,
+  sh_rung_levels None grace_period reduction_factor rung_increment max_t = Some l ->
+  exists rest, l = grace_period :: rest.
+Proof. exact sh_rung_levels_first. Qed.
+Print Assumptions c03_first_level_is_grace_period.
+
+(* (12) the top bracket (as many rungs skipped as there are rung levels; with a shared rung system
+   this is skip_rungs = number of rungs) has no rung at all, and a trial running in it is never
+   stopped before max_t, after any event sequence *)
+Theorem c03_top_bracket_never_decides :
+  forall cfg levels brackets evs b sys t r m,
+  wf_levels levels (c_max_t cfg) ->
+  let st := reached cfg levels brackets evs in
+  nth_error (s_sys st) (sys_id cfg b) = Some sys -> (length levels <= b)%nat ->
+  running st t -> (1 <= r < c_max_t cfg)%Z -> assoc_get (s_task st) t = Some b ->
+  own_rungs cfg st b = [] /\ on_trial_result cfg st t r m = (st, Dec CONTINUE).
+Proof.
+  intros cfg levels brackets evs b sys t r m Hwf st Hs Hb Hr Hrange Ht.
+  split; [exact (top_bracket_no_rung cfg levels brackets evs b sys Hs Hb)|
+          exact (top_bracket_never_decides cfg levels brackets evs b sys t r m Hwf Hs Hb Hr Hrange Ht)].
+Qed.
+Print Assumptions c03_top_bracket_never_decides.
+
+(* (13) saving and loading the scheduler (dill: every SortedList is rebuilt from its stored values
+   with the same key) at any point of any event sequence is transparent: the restored state IS the
+   state, so every later decision and the final state are those of the uninterrupted run *)
+Theorem c03_restore_transparent :
+  forall cfg levels brackets evs1 evs2,
+  wf_levels levels (c_max_t cfg) ->
+  run cfg (restore_state cfg (reached cfg levels brackets evs1)) evs2 = reached cfg levels brackets (evs1 ++ evs2) /\
+  outcomes cfg (restore_state cfg (reached cfg levels brackets evs1)) evs2 =
+    outcomes cfg (reached cfg levels brackets evs1) evs2.
+Proof. exact restore_transparent. Qed.
+Print Assumptions c03_restore_transparent.
+
+(* (14) the round-off clause, made precise: ANY evaluation c' of the cutoff within d of the exact
+   cutoff decides exactly like the documented rule whenever the metric is further than d from the
+   exact cutoff. (The driver checks on every run that the binary64 Rung.quantile is within
+   d = 8 (n+1) 2^-53 max|metric| of the exact value, and accepts either answer only inside d.) *)
+Theorem c03_round_off_class :
+  forall md pq ms own c' d,
+  (2 <= length ms)%nat ->
+  let c := np_quantile (sort_asc ms) (quantile_level md pq) in
+  - d <= c' - c <= d -> (own - c < - d \/ d < own - c) ->
+  no_worse md own c' = rule_b md pq ms own.
+Proof. exact approx_cutoff_decides_by_rule. Qed.
+Print Assumptions c03_round_off_class.
+
 (* non-vacuity: rung levels 1,3 below max_t 9, two brackets sharing one system; three trials
    report at level 1 (q = 1/3) 5, 7, 5: the third continues (5 <= quantile 5), a fourth
    reporting 8 is stopped (quantile of 5,7,8 is 19/3); trial 3 in bracket 1 takes no decision at level 1 *)
@@ -206,3 +282,18 @@ Example c03_example :
 Proof.
   vm_compute. repeat split; try reflexivity; repeat constructor; try discriminate.
 Qed.
+
+(* non-vacuity for (12)-(14): three brackets over levels 1,3 (bracket 2 = top bracket); a tie at rung
+   level 1; restore in the middle; an approximate cutoff *)
+Example c03_example_structure :
+  let cfg := {| c_mode := Max; c_max_t := 9; c_per_bracket := false; c_rush := None |} in
+  let evs := [EvSuggest 0 0; EvSuggest 1 0; EvSuggest 2 2; EvReport 0 1 5; EvReport 1 1 5; EvReport 2 1 0] in
+  let st := reached cfg [1; 3]%Z 3 evs in
+  own_rungs cfg st 2 = [] /\ running st 2 /\
+  snd (on_trial_result cfg st 2 3 0) = Dec CONTINUE /\
+  restore_state cfg st = st /\
+  outcomes cfg (restore_state cfg st) [EvReport 1 3 7; EvReport 0 3 6] = [Dec CONTINUE; Dec STOP] /\
+  (let ms := [1; 2; 3] in
+   np_quantile (sort_asc ms) (quantile_level Min (1 # 2)) == 2 /\
+   no_worse Min 3 (2 + (1 # 1000)) = rule_b Min (1 # 2) ms 3).
+Proof. vm_compute. repeat split; reflexivity. Qed.
